@@ -137,7 +137,7 @@ func genUploadCase(t *rapid.T) UploadCase {
 	for i := 0; i < n; i++ {
 		name := fmt.Sprintf("pkg_1.0-%d%s", i, rapid.SampledFrom([]string{".orig.tar.gz", ".debian.tar.xz", "_amd64.deb", ".dsc", ".tar.xz"}).Draw(t, "ext"))
 		if adversarial && rapid.IntRange(0, 1).Draw(t, "adv") == 0 {
-			name = rapid.SampledFrom([]string{"../outside/victim", "../outside/victim2", "../d1/planted", "sub/inner.tar.gz", "/outside/victim", "../../outside/victim", "sub/../../outside/victim", "./" + name, "..", ".", "/", "//", "/.", "sub/", "../", "../outside/real.dsc"}).Draw(t, "advname")
+			name = rapid.SampledFrom([]string{"../outside/victim", "../outside/victim2", "../d1/planted", "sub/inner.tar.gz", "/outside/victim", "../../outside/victim", "sub/../../outside/victim", "./" + name, "..", ".", "/", "//", "/.", "sub/", "../", "../outside/real.dsc", "outlink/victim", "outlink/victim2", "sub/outlink2/victim"}).Draw(t, "advname")
 		}
 		if !adversarial && rapid.IntRange(0, 19).Draw(t, "longname") == 0 {
 			// a legal name close to NAME_MAX (255)
@@ -372,6 +372,11 @@ func checkUploadCase(c UploadCase, r *Recorder) error {
 			r.Count("skipped:no-second-filesystem", 1)
 		}
 	}
+	// a sub-directory of the upload directory that is a symbolic link to the outside: a listed name
+	// that goes through it has no '..' in it and leaves all the same
+	os.MkdirAll(filepath.Join(root, "src", "sub"), 0o755)
+	os.Symlink(filepath.Join(root, "outside"), filepath.Join(root, "src", "outlink"))
+	os.Symlink("../../outside", filepath.Join(root, "src", "sub", "outlink2"))
 	const secret = "OUTSIDE-SECRET-CONTENT-"
 	os.WriteFile(filepath.Join(root, "outside", "victim"), []byte(secret+"1"), 0o644)
 	os.WriteFile(filepath.Join(root, "outside", "victim2"), []byte(secret+"2"), 0o644)
@@ -811,7 +816,7 @@ func upNames(fs []UpFile) []string {
 
 var specC20 = Register(&Spec[UploadCase]{
 	Prop: "C20", Name: "upload",
-	Rule:  "histories of 1..3 operations (Copy/Move into d1|d2, Remove) on one .dsc or .changes handle over a fresh scratch tree root/{src,src/sub,d1,d2,outside}; 0..5 referenced files (sizes 0, 1, 7, 300, 32767..32769, 100000; one plain name in twenty is 200..255 bytes long; one file in ten is listed with a size that is not its real one - the hashes are made up anyway, nothing in the statement makes Copy/Move verify either); a quarter of the uploads list adversarial names ('../outside/victim', '../d1/planted', 'sub/x', absolute, '..', '.', '/', '//', '../', 'sub/../../outside/victim') and/or carry a literal 'Filename:' field pointing elsewhere, and a third of those have no Files field at all (Checksums-Sha256 only) or list the adversarial names in Checksums-Sha256 only; in a quarter of the cases both destinations already hold same-named files of the same length with other bytes (leftovers of an earlier upload); in a fifth of the cases d2 is on another file system (/dev/shm, when there is one), where a Move may fail as a whole but must not half-succeed; in a sixth of the cases the destination of the last operation holds a planted symbolic link to root/outside/victim under the name of a referenced file or of the control file; one listed file in eight is a symbolic link in the source directory to the real file in src/sub (relative or absolute target) or an absolute link to the same-named file that already lives in d1; one control file in six ends without a line end (inside its last, folded, field); in an eighth of the cases the control file in the upload directory is itself a symbolic link to a copy in root/outside/pool, next to which same-named files with other content lie (the upload is where the link is); one destination in six is named as <symlink>/.. with the link leading to a directory inside the destination, and same-named files are planted one level above (where a path cleaned as text would land); one upload in ten lists a name twice (Move / Remove may then fail at the second occurrence - with the control file untouched); in a third of the .changes cases a listed .dsc is a real one whose own Files field names ../outside/victim and sub/inner (nobody asked for the files a listed file lists); in an eighth the control file lists itself (refusing is fine, but then nothing may have moved and the control file is not in the destination); in a quarter (half of the self-listing ones) the handle comes from ParseDsc / ParseChanges(reader, path) with the path spelled src/./x.dsc, src/../src/x.dsc or //src/x.dsc, or from Parse*File of ../x.dsc called in a working directory that was entered through a symbolic link ($PWD logical); an operation whose destination is the directory the upload already lives in (also spelled d1/../src/.) must leave that directory bit-identical whatever it returns; the last operation optionally runs with ONE planted fault at step i in {file 0..n-1, control file}: source deleted, source replaced by a non-empty directory, a non-empty directory squatting on the destination name, destination directory missing or a regular file. Oracle: success (plain names, no fault) => all files and the control file byte-identical in the destination (Move: gone from source; Remove: gone), handle.Filename == dest/base; fault => an error, no regular control file in the destination, for Move/Remove the control file intact at its source; always => root/outside bit-identical, no destination file carries outside content, d1/planted untouched when d1 is not involved. Non-trivial: >= 2 files with a fault at step >= 1, or non-plain names; distinct by case.",
+	Rule:  "histories of 1..3 operations (Copy/Move into d1|d2, Remove) on one .dsc or .changes handle over a fresh scratch tree root/{src,src/sub,d1,d2,outside}; 0..5 referenced files (sizes 0, 1, 7, 300, 32767..32769, 100000; one plain name in twenty is 200..255 bytes long; one file in ten is listed with a size that is not its real one - the hashes are made up anyway, nothing in the statement makes Copy/Move verify either); a quarter of the uploads list adversarial names ('../outside/victim', '../d1/planted', 'sub/x', absolute, '..', '.', '/', '//', '../', 'sub/../../outside/victim', 'outlink/victim' where src/outlink is a symbolic link to root/outside) and/or carry a literal 'Filename:' field pointing elsewhere, and a third of those have no Files field at all (Checksums-Sha256 only) or list the adversarial names in Checksums-Sha256 only; in a quarter of the cases both destinations already hold same-named files of the same length with other bytes (leftovers of an earlier upload); in a fifth of the cases d2 is on another file system (/dev/shm, when there is one), where a Move may fail as a whole but must not half-succeed; in a sixth of the cases the destination of the last operation holds a planted symbolic link to root/outside/victim under the name of a referenced file or of the control file; one listed file in eight is a symbolic link in the source directory to the real file in src/sub (relative or absolute target) or an absolute link to the same-named file that already lives in d1; one control file in six ends without a line end (inside its last, folded, field); in an eighth of the cases the control file in the upload directory is itself a symbolic link to a copy in root/outside/pool, next to which same-named files with other content lie (the upload is where the link is); one destination in six is named as <symlink>/.. with the link leading to a directory inside the destination, and same-named files are planted one level above (where a path cleaned as text would land); one upload in ten lists a name twice (Move / Remove may then fail at the second occurrence - with the control file untouched); in a third of the .changes cases a listed .dsc is a real one whose own Files field names ../outside/victim and sub/inner (nobody asked for the files a listed file lists); in an eighth the control file lists itself (refusing is fine, but then nothing may have moved and the control file is not in the destination); in a quarter (half of the self-listing ones) the handle comes from ParseDsc / ParseChanges(reader, path) with the path spelled src/./x.dsc, src/../src/x.dsc or //src/x.dsc, or from Parse*File of ../x.dsc called in a working directory that was entered through a symbolic link ($PWD logical); an operation whose destination is the directory the upload already lives in (also spelled d1/../src/.) must leave that directory bit-identical whatever it returns; the last operation optionally runs with ONE planted fault at step i in {file 0..n-1, control file}: source deleted, source replaced by a non-empty directory, a non-empty directory squatting on the destination name, destination directory missing or a regular file. Oracle: success (plain names, no fault) => all files and the control file byte-identical in the destination (Move: gone from source; Remove: gone), handle.Filename == dest/base; fault => an error, no regular control file in the destination, for Move/Remove the control file intact at its source; always => root/outside bit-identical, no destination file carries outside content, d1/planted untouched when d1 is not involved. Non-trivial: >= 2 files with a fault at step >= 1, or non-plain names; distinct by case.",
 	Check: checkUploadCase,
 })
 
